@@ -151,6 +151,9 @@ class SshProtocolMessage(ParsableBase):
             composer.compose_string(self.comment)
         composer.compose_separator('\r\n')
 
+        if composer.composed_length > 255:
+            raise TooMuchData(composer.composed_length - 255)
+
         return composer.composed
 
 
